@@ -573,6 +573,10 @@ func (u *Unmarshaler) processFieldPrimitiveWithJSONNumber(fieldType reflect.Type
 			return err
 		}
 
+		if value.OverflowInt(iValue) {
+			return fmt.Errorf("解编组 %q 使用了错误的值 %q", fullName, v.String())
+		}
+
 		value.SetInt(iValue)
 	case reflect.Uint, reflect.Uint8, reflect.Uint16, reflect.Uint32, reflect.Uint64:
 		iValue, err := v.Int64()
@@ -584,11 +588,19 @@ func (u *Unmarshaler) processFieldPrimitiveWithJSONNumber(fieldType reflect.Type
 			return fmt.Errorf("解编组 %q 使用了错误的值 %q", fullName, v.String())
 		}
 
+		if value.OverflowUint(uint64(iValue)) {
+			return fmt.Errorf("解编组 %q 使用了错误的值 %q", fullName, v.String())
+		}
+
 		value.SetUint(uint64(iValue))
 	case reflect.Float32, reflect.Float64:
 		fValue, err := v.Float64()
 		if err != nil {
 			return err
+		}
+
+		if value.OverflowFloat(fValue) {
+			return fmt.Errorf("解编组 %q 使用了错误的值 %q", fullName, v.String())
 		}
 
 		value.SetFloat(fValue)
